@@ -85,7 +85,7 @@ After(s, n) == SubSeq(s, n + 1, Len(s))
 
 (* ---- configuration -------------------------------------------------------- *)
 UTFMax == 4
-DefaultBuf == 20                     \* stands for 2048 (text, binary) / 64 KiB (lines): larger than every stream here
+DefaultBuf == 90                     \* stands for 2048 (text, binary) / 64 KiB (lines): larger than every stream here
 BufEff(t, b) == IF b = 0 THEN DefaultBuf
                 ELSE IF t = "text" /\ FixTextBuf /\ b < UTFMax THEN UTFMax ELSE b
 Ign(m)  == m \in {"ign", "ignx"}
@@ -108,7 +108,7 @@ Verdict(k) == CASE k \in {"plain", "noconn"} -> 400     \* no `upgrade` token in
                 [] OTHER        -> 101
 
 \* the headers net/http hands to the handler for each request kind (Host is not among them)
-KindHdrs(k) == CASE k = "ws"      -> {"Upgrade", "Connection", "Sec-Websocket-Key", "Sec-Websocket-Version", "Origin"}
+KindHdrs(k) == CASE k = "ws"      -> {"Upgrade", "Connection", "Sec-Websocket-Key", "Sec-Websocket-Version"}
                  [] k = "wsmixed" -> {"Upgrade", "Connection", "Sec-Websocket-Key", "Sec-Websocket-Version"}
                  [] k = "plain"   -> {}
                  [] k = "post"    -> {"Upgrade", "Connection", "Sec-Websocket-Key", "Sec-Websocket-Version", "Content-Length"}
@@ -164,7 +164,7 @@ VARIABLES
     rk, rpath, rhost, rhdrs,                            \* the request as the client sent it
     pc, idx, sel, rst, fwd, mutated, stopped,           \* WebSocket.ServeHTTP / serveWS
     cenv, todo,                                         \* buildEnv
-    ch, chenv, chGot, chEof, chSigs, chOut, pendInt, pendKill, spawns,   \* the command
+    ch, chenv, chGot, chEof, chSigs, chOut, pendInt, pendKill, spawns, leaving,   \* the command
     sinW, sinHist, soutR, sout, outHist,                \* the two pipes
     pin, inmsg,                                         \* pumpStdin
     pout, obuf, oeof, chunk, remain, oerr, ping,        \* pumpStdout, pinger
@@ -177,7 +177,7 @@ cfgv == <<scope, ty, bs, mode, cmdok>>
 reqv == <<rk, rpath, rhost, rhdrs>>
 srvv == <<pc, idx, sel, rst, fwd, mutated>>
 envv == <<cenv, todo>>
-chv  == <<ch, chenv, chGot, chEof, chSigs, chOut, pendInt, pendKill, spawns>>
+chv  == <<ch, chenv, chGot, chEof, chSigs, chOut, pendInt, pendKill, spawns, leaving>>
 pipv == <<sinW, sinHist, soutR, sout, outHist>>
 inv  == <<pin, inmsg>>
 outv == <<pout, obuf, oeof, chunk, remain, oerr, ping>>
@@ -198,7 +198,7 @@ InitRest ==
     /\ pc = "idle" /\ idx = 1 /\ sel = 0 /\ rst = -1 /\ fwd = NoFwd /\ mutated = FALSE /\ stopped = FALSE
     /\ cenv = {} /\ todo = {}
     /\ ch = "none" /\ chenv = {} /\ chGot = <<>> /\ chEof = FALSE /\ chSigs = <<>> /\ chOut = FALSE
-    /\ pendInt = FALSE /\ pendKill = FALSE /\ spawns = 0
+    /\ pendInt = FALSE /\ pendKill = FALSE /\ spawns = 0 /\ leaving = FALSE
     /\ sinW = FALSE /\ sinHist = <<>> /\ soutR = FALSE /\ sout = <<>> /\ outHist = <<>>
     /\ pin = "off" /\ inmsg = <<>>
     /\ pout = "off" /\ obuf = <<>> /\ oeof = FALSE /\ chunk = <<>> /\ remain = <<>> /\ oerr = "" /\ ping = "off"
@@ -213,7 +213,7 @@ ResetRest ==
     /\ pc' = "idle" /\ idx' = 1 /\ sel' = 0 /\ rst' = -1 /\ fwd' = NoFwd /\ mutated' = FALSE /\ stopped' = FALSE
     /\ cenv' = {} /\ todo' = {}
     /\ ch' = "none" /\ chenv' = {} /\ chGot' = <<>> /\ chEof' = FALSE /\ chSigs' = <<>> /\ chOut' = FALSE
-    /\ pendInt' = FALSE /\ pendKill' = FALSE /\ spawns' = 0
+    /\ pendInt' = FALSE /\ pendKill' = FALSE /\ spawns' = 0 /\ leaving' = FALSE
     /\ sinW' = FALSE /\ sinHist' = <<>> /\ soutR' = FALSE /\ sout' = <<>> /\ outHist' = <<>>
     /\ pin' = "off" /\ inmsg' = <<>>
     /\ pout' = "off" /\ obuf' = <<>> /\ oeof' = FALSE /\ chunk' = <<>> /\ remain' = <<>> /\ oerr' = "" /\ ping' = "off"
@@ -225,7 +225,8 @@ ResetRest ==
 Init ==
     /\ scope \in Scopes /\ ty \in Types /\ bs \in Bufs /\ mode \in Modes
     /\ cmdok \in (IF scope = "req" THEN {TRUE, FALSE} ELSE {TRUE})
-    /\ (scope = "req" => mode = "dflt" /\ ty = "lines" /\ bs = 0)
+    /\ (scope = "req" => mode = "dflt" /\ ty = "lines" /\ \A b \in Bufs : bs <= b)
+    /\ (bs = 0 => mode = "dflt")         \* the default buffer is explored with one kind of command only
     /\ InitRest
 
 (* ======================= the client ======================================== *)
@@ -269,6 +270,7 @@ ClientRecv ==
             /\ cclose' = IF f.k = "close" THEN [code |-> f.code, why |-> f.why] ELSE cclose
             /\ ceof' = (ceof \/ f.k = "fin")
     /\ UNCHANGED <<cfgv, reqv, srvv, stopped, envv, chv, pipv, inv, outv, conn, c2s, cst, csent, synv, dirty, nw>>
+    /\ UNCHANGED hisv
 
 (* ======================= WebSocket.ServeHTTP / serveWS ====================== *)
 \* for _, sockConfig := range ws.Sockets { if Path(r.URL.Path).Matches(sockConfig.Path) { return serveWS(...) } }
@@ -278,6 +280,7 @@ SrvMatch ==
        ELSE IF Matches(ReqPathOf(rpath), Socks[idx]) THEN pc' = "upgrade" /\ sel' = idx /\ UNCHANGED idx
        ELSE idx' = idx + 1 /\ UNCHANGED <<pc, sel>>
     /\ UNCHANGED <<cfgv, reqv, rst, fwd, mutated, stopped, envv, chv, pipv, inv, outv, conv, cliv, synv, dirty, nw>>
+    /\ UNCHANGED hisv
 
 \* return ws.Next.ServeHTTP(w, r): the request goes on as it came
 SrvNext ==
@@ -286,9 +289,12 @@ SrvNext ==
     /\ s2c' = Append(s2c, HeadTok(200))
     /\ pc' = "returned" /\ rst' = 0
     /\ UNCHANGED <<cfgv, reqv, idx, sel, mutated, stopped, envv, chv, pipv, inv, outv, conn, c2s, cliv, synv, dirty, nw>>
+    /\ UNCHANGED hisv
 
 \* u.Upgrade(w, r, nil): either the error answer (the connection stays an ordinary one, serveWS
-\* returns 0 and the error) or the hijack and the 101 answer.  CheckOrigin accepts every Origin.
+\* returns 0 and the error) or the hijack and the 101 answer.  (CheckOrigin accepts every Origin:
+\* what a handshake from another origin gets is recorded by the harness, not judged - the requests
+\* of the model carry no Origin.)
 SrvUpgrade ==
     /\ pc = "upgrade"
     /\ LET v == Verdict(rk) IN
@@ -296,12 +302,14 @@ SrvUpgrade ==
        /\ IF v = 101 THEN pc' = "pipes" /\ conn' = "open" /\ UNCHANGED rst
           ELSE pc' = "returned" /\ rst' = 0 /\ UNCHANGED conn
     /\ UNCHANGED <<cfgv, reqv, idx, sel, fwd, mutated, stopped, envv, chv, pipv, inv, outv, c2s, cliv, synv, dirty, nw>>
+    /\ UNCHANGED hisv
 
 \* exec.Command, cmd.StdoutPipe(), cmd.StdinPipe()
 SrvPipes ==
     /\ pc = "pipes"
     /\ soutR' = TRUE /\ sinW' = TRUE /\ pc' = "env"
     /\ UNCHANGED <<cfgv, reqv, idx, sel, rst, fwd, mutated, stopped, envv, chv, sinHist, sout, outHist, inv, outv, conv, cliv, synv, dirty, nw>>
+    /\ UNCHANGED hisv
 
 \* buildEnv: r.RemoteAddr / r.Host get a ":" appended when they have none (the request is changed
 \* in place), then the fixed list
@@ -311,12 +319,14 @@ SrvEnvBase ==
     /\ cenv' = SeqToSet(BaseEnv(rhost)) /\ todo' = rhdrs
     /\ pc' = "envhdr"
     /\ UNCHANGED <<cfgv, reqv, idx, sel, rst, fwd, stopped, chv, pipv, inv, outv, conv, cliv, synv, dirty, nw>>
+    /\ UNCHANGED hisv
 
 \* for header, values := range r.Header  (a map: any order)
 SrvEnvHeader(h) ==
     /\ pc = "envhdr" /\ h \in todo
     /\ cenv' = cenv \cup {<<EnvName(h), EnvVal(h)>>} /\ todo' = todo \ {h}
     /\ UNCHANGED <<cfgv, reqv, srvv, stopped, chv, pipv, inv, outv, conv, cliv, synv, dirty, nw>>
+    /\ UNCHANGED hisv
 
 \* cmd.Env = metavars; cmd.Start(); go pumpStdout(...); pumpStdin(...)
 \* A command that cannot be started: Start closes the pipes, serveWS returns 502 (after the 101).
@@ -330,6 +340,8 @@ SrvStart ==
             /\ UNCHANGED <<ch, chenv, chOut, spawns, pin, pout>>
     /\ UNCHANGED <<cfgv, reqv, idx, sel, fwd, mutated, stopped, envv, chGot, chEof, chSigs, pendInt, pendKill,
                    sinHist, sout, outHist, inmsg, obuf, oeof, chunk, remain, oerr, ping, conv, cliv, synv, dirty, nw>>
+    /\ UNCHANGED hisv
+    /\ UNCHANGED leaving
 
 (* ---- pumpStdin ------------------------------------------------------------- *)
 InRead ==
@@ -345,6 +357,7 @@ InRead ==
                                       /\ pin' = "close" /\ UNCHANGED inmsg
                   [] OTHER         -> pin' = "close" /\ UNCHANGED <<inmsg, s2c>>
     /\ UNCHANGED <<cfgv, reqv, srvv, stopped, envv, chv, pipv, outv, conn, cliv, synv, dirty, nw>>
+    /\ UNCHANGED hisv
 
 \* stdin.Write(message): fails (EPIPE) once the command is gone
 InWrite ==
@@ -353,6 +366,7 @@ InWrite ==
        ELSE pin' = "close" /\ dirty' = TRUE /\ UNCHANGED sinHist
     /\ inmsg' = <<>>
     /\ UNCHANGED <<cfgv, reqv, srvv, stopped, envv, chv, sinW, soutR, sout, outHist, outv, conv, cliv, synv, nw>>
+    /\ UNCHANGED hisv
 
 CloseConn == /\ conn' = "closed"
              /\ s2c' = IF conn = "open" THEN Append(s2c, FinTok) ELSE s2c
@@ -363,12 +377,14 @@ InClose ==
     /\ pin = "close"
     /\ CloseConn /\ pin' = "done"
     /\ UNCHANGED <<cfgv, reqv, srvv, stopped, envv, chv, pipv, inmsg, outv, cliv, synv, dirty, nw>>
+    /\ UNCHANGED hisv
 
 (* ---- pumpStdout ------------------------------------------------------------ *)
 OutBegin ==
     /\ pout = "begin"
     /\ ping' = "run" /\ pout' = "read"
     /\ UNCHANGED <<cfgv, reqv, srvv, stopped, envv, chv, pipv, inv, obuf, oeof, chunk, remain, oerr, conv, cliv, synv, dirty, nw>>
+    /\ UNCHANGED hisv
 
 Cap == BufEff(ty, bs)
 
@@ -392,6 +408,7 @@ OutScan ==
        ELSE /\ ~chOut /\ oeof' = TRUE                                           \* read returns io.EOF
             /\ UNCHANGED <<pout, obuf, chunk, oerr, sout>>
     /\ UNCHANGED <<cfgv, reqv, srvv, stopped, envv, chv, sinW, sinHist, soutR, outHist, inv, remain, ping, conv, cliv, synv, dirty, nw>>
+    /\ UNCHANGED hisv
 
 SendFrame(k, p) ==
     IF conn = "open" THEN s2c' = Append(s2c, Frame(k, p, 0, "")) /\ pout' = "read"
@@ -402,6 +419,7 @@ OutEmitLine ==
     /\ pout = "emit" /\ ty = "lines"
     /\ SendFrame("text", TrimWS(chunk)) /\ chunk' = <<>>
     /\ UNCHANGED <<cfgv, reqv, srvv, stopped, envv, chv, pipv, inv, obuf, oeof, remain, oerr, ping, conn, c2s, cliv, synv, dirty, nw>>
+    /\ UNCHANGED hisv
 
 \* r.Read(out[remainLen:]) on a bufio.Reader: one read of the pipe when its buffer is empty, then the copy
 OutRead ==
@@ -420,6 +438,7 @@ OutRead ==
        ELSE /\ ~chOut /\ oerr' = "EOF" /\ pout' = "closefr"
             /\ UNCHANGED <<obuf, sout, chunk>>
     /\ UNCHANGED <<cfgv, reqv, srvv, stopped, envv, chv, sinW, sinHist, soutR, outHist, inv, oeof, remain, ping, conv, cliv, synv, dirty, nw>>
+    /\ UNCHANGED hisv
 
 \* remainLen = findIncompleteRuneLength(out, len); WriteMessage(out[0:len-remainLen])
 OutEmit ==
@@ -429,6 +448,7 @@ OutEmit ==
        /\ remain' = After(chunk, Len(chunk) - r)
     /\ chunk' = <<>>
     /\ UNCHANGED <<cfgv, reqv, srvv, stopped, envv, chv, pipv, inv, obuf, oeof, oerr, ping, conn, c2s, cliv, synv, dirty, nw>>
+    /\ UNCHANGED hisv
 
 \* WriteControl(CloseMessage, FormatCloseMessage(CloseGoingAway, err.Error()))
 OutCloseFrame ==
@@ -436,22 +456,26 @@ OutCloseFrame ==
     /\ s2c' = IF conn = "open" THEN Append(s2c, Frame("close", <<>>, 1001, oerr)) ELSE s2c
     /\ pout' = "close"
     /\ UNCHANGED <<cfgv, reqv, srvv, stopped, envv, chv, pipv, inv, obuf, oeof, chunk, remain, oerr, ping, conn, c2s, cliv, synv, dirty, nw>>
+    /\ UNCHANGED hisv
 
 \* the deferred function of pumpStdout: conn.Close(), then close(done)
 OutConnClose ==
     /\ pout = "close"
     /\ CloseConn /\ pout' = "fin"
     /\ UNCHANGED <<cfgv, reqv, srvv, stopped, envv, chv, pipv, inv, obuf, oeof, chunk, remain, oerr, ping, cliv, synv, dirty, nw>>
+    /\ UNCHANGED hisv
 
 OutDone ==
     /\ pout = "fin"
     /\ done' = TRUE /\ pout' = "done"
     /\ UNCHANGED <<cfgv, reqv, srvv, stopped, envv, chv, pipv, inv, obuf, oeof, chunk, remain, oerr, ping, conv, cliv, wg, timer, dirty, nw>>
+    /\ UNCHANGED hisv
 
 PingExit ==
     /\ ping = "run" /\ done
     /\ ping' = "done"
     /\ UNCHANGED <<cfgv, reqv, srvv, stopped, envv, chv, pipv, inv, pout, obuf, oeof, chunk, remain, oerr, conv, cliv, synv, dirty, nw>>
+    /\ UNCHANGED hisv
 
 (* ---- serveWS after pumpStdin has returned ---------------------------------- *)
 \* _ = stdin.Close()
@@ -459,6 +483,7 @@ SrvCloseStdin ==
     /\ pc = "pump" /\ pin = "done"
     /\ sinW' = FALSE /\ pc' = "signal"
     /\ UNCHANGED <<cfgv, reqv, idx, sel, rst, fwd, mutated, stopped, envv, chv, sinHist, soutR, sout, outHist, inv, outv, conv, cliv, synv, dirty, nw>>
+    /\ UNCHANGED hisv
 
 \* cmd.Process.Signal(os.Interrupt) (no effect on a process that has ended), time.After(time.Second)
 SrvSignal ==
@@ -467,6 +492,8 @@ SrvSignal ==
     /\ wg' = IF FixKill THEN "waitdone" ELSE wg
     /\ UNCHANGED <<cfgv, reqv, idx, sel, rst, fwd, mutated, stopped, envv, ch, chenv, chGot, chEof, chSigs, chOut, pendKill, spawns,
                    pipv, inv, outv, conv, cliv, done, dirty, nw>>
+    /\ UNCHANGED hisv
+    /\ UNCHANGED leaving
 
 \* cmd.Wait(): returns once the process has ended; closes the parent's ends of the pipes
 Reap == /\ ch = "dead" /\ ch' = "reaped" /\ soutR' = FALSE /\ sinW' = FALSE
@@ -476,24 +503,31 @@ SrvWaitDone ==
     /\ ~FixKill /\ pc \in {"wait", "wait2"} /\ done
     /\ pc' = "reap"
     /\ UNCHANGED <<cfgv, reqv, idx, sel, rst, fwd, mutated, stopped, envv, chv, pipv, inv, outv, conv, cliv, synv, dirty, nw>>
+    /\ UNCHANGED hisv
 SrvReap ==
     /\ ~FixKill /\ pc = "reap" /\ Reap /\ pc' = "defers"
     /\ UNCHANGED <<cfgv, reqv, idx, sel, rst, fwd, mutated, stopped, envv, chenv, chGot, chEof, chSigs, chOut, pendInt, pendKill, spawns,
                    sinHist, sout, outHist, inv, outv, conv, cliv, synv, dirty, nw>>
+    /\ UNCHANGED hisv
+    /\ UNCHANGED leaving
 
 \* repaired:   go func() { <-done; waited <- cmd.Wait() }() ; select { case <-waited: ; case <-time.After(time.Second): Signal(os.Kill); <-waited }
 WaitDone ==
     /\ FixKill /\ wg = "waitdone" /\ done
     /\ wg' = "reap"
     /\ UNCHANGED <<cfgv, reqv, srvv, stopped, envv, chv, pipv, inv, outv, conv, cliv, done, timer, dirty, nw>>
+    /\ UNCHANGED hisv
 WaitReap ==
     /\ FixKill /\ wg = "reap" /\ Reap /\ wg' = "done"
     /\ UNCHANGED <<cfgv, reqv, srvv, stopped, envv, chenv, chGot, chEof, chSigs, chOut, pendInt, pendKill, spawns,
                    sinHist, sout, outHist, inv, outv, conv, cliv, done, timer, dirty, nw>>
+    /\ UNCHANGED hisv
+    /\ UNCHANGED leaving
 SrvWaited ==
     /\ FixKill /\ pc \in {"wait", "wait2"} /\ wg = "done"
     /\ pc' = "defers"
     /\ UNCHANGED <<cfgv, reqv, idx, sel, rst, fwd, mutated, stopped, envv, chv, pipv, inv, outv, conv, cliv, synv, dirty, nw>>
+    /\ UNCHANGED hisv
 
 \* the second is over and the select has not been served otherwise: terminate with extreme prejudice
 SrvTimer ==
@@ -502,6 +536,8 @@ SrvTimer ==
     /\ timer' = "fired" /\ pendKill' = (ch = "run") /\ pc' = "wait2"
     /\ UNCHANGED <<cfgv, reqv, idx, sel, rst, fwd, mutated, stopped, envv, ch, chenv, chGot, chEof, chSigs, chOut, pendInt, spawns,
                    pipv, inv, outv, conv, cliv, done, wg, dirty, nw>>
+    /\ UNCHANGED hisv
+    /\ UNCHANGED leaving
 
 \* the deferred stdin.Close(), stdout.Close(), conn.Close(); serveWS returns
 SrvDefers ==
@@ -509,6 +545,7 @@ SrvDefers ==
     /\ sinW' = FALSE /\ soutR' = FALSE /\ CloseConn
     /\ pc' = "returned" /\ rst' = IF rst = -1 THEN 0 ELSE rst
     /\ UNCHANGED <<cfgv, reqv, idx, sel, fwd, mutated, stopped, envv, chv, sinHist, sout, outHist, inv, outv, cliv, synv, dirty, nw>>
+    /\ UNCHANGED hisv
 
 (* ======================= the command ======================================== *)
 Die == ch' = "dead" /\ chOut' = FALSE /\ pendInt' = FALSE /\ pendKill' = FALSE
@@ -525,33 +562,49 @@ ChildCloseOut ==
     /\ scope = "bridge" /\ ch = "run" /\ chOut
     /\ chOut' = FALSE
     /\ UNCHANGED <<cfgv, reqv, srvv, stopped, envv, ch, chenv, chGot, chEof, chSigs, pendInt, pendKill, spawns, pipv, inv, outv, conv, cliv, synv, dirty, nw>>
+    /\ UNCHANGED leaving
 
 ChildExit ==
     /\ scope = "bridge" /\ ch = "run" /\ Die
     /\ UNCHANGED <<cfgv, reqv, srvv, stopped, envv, chenv, chGot, chEof, chSigs, spawns, pipv, inv, outv, conv, cliv, synv, dirty, nw>>
+    /\ UNCHANGED leaving
 
 \* reactions of the command
 ChildRead ==
     /\ ch = "run" /\ chGot # sinHist
     /\ chGot' = sinHist
     /\ UNCHANGED <<cfgv, reqv, srvv, stopped, envv, ch, chenv, chEof, chSigs, chOut, pendInt, pendKill, spawns, pipv, inv, outv, conv, cliv, synv, dirty, nw>>
+    /\ UNCHANGED hisv
+    /\ UNCHANGED leaving
 
 ChildEof ==
     /\ ch = "run" /\ ~sinW /\ chGot = sinHist /\ ~chEof
     /\ chEof' = TRUE
     /\ IF EofX(mode) THEN Die ELSE UNCHANGED <<ch, chOut, pendInt, pendKill>>
     /\ UNCHANGED <<cfgv, reqv, srvv, stopped, envv, chenv, chGot, chSigs, spawns, pipv, inv, outv, conv, cliv, synv, dirty, nw>>
+    /\ UNCHANGED hisv
+    /\ UNCHANGED leaving
 
 ChildInt ==
     /\ ch = "run" /\ pendInt
     /\ chSigs' = Append(chSigs, "INT")
     /\ IF Ign(mode) THEN pendInt' = FALSE /\ UNCHANGED <<ch, chOut, pendKill>> ELSE Die
     /\ UNCHANGED <<cfgv, reqv, srvv, stopped, envv, chenv, chGot, chEof, spawns, pipv, inv, outv, conv, cliv, synv, dirty, nw>>
+    /\ UNCHANGED hisv
+    /\ UNCHANGED leaving
 
 ChildKilled ==
     /\ ch = "run" /\ pendKill
     /\ Die
     /\ UNCHANGED <<cfgv, reqv, srvv, stopped, envv, chenv, chGot, chEof, chSigs, spawns, pipv, inv, outv, conv, cliv, synv, dirty, nw>>
+    /\ UNCHANGED hisv
+    /\ UNCHANGED leaving
+
+\* the second step of "write and leave" (ChildWriteExit below)
+ChildLeave ==
+    /\ ch = "run" /\ leaving /\ Die
+    /\ UNCHANGED <<cfgv, reqv, srvv, stopped, envv, chenv, chGot, chEof, chSigs, spawns, leaving, pipv, inv, outv, conv, cliv, synv, dirty, nw>>
+    /\ UNCHANGED hisv
 
 \* Server.Stop: http.Server.Shutdown neither waits for nor closes hijacked connections
 ServerStop ==
@@ -560,14 +613,14 @@ ServerStop ==
 
 (* ======================= next-state relations =============================== *)
 \* the menus: kinds of the bytes of one message / one write
-InMenu == IF Rich THEN {<<K_ORD>>, <<K_ORD, K_NL, K_ORD>>, <<>>, <<K_LEAD, K_CONT>>} ELSE {<<K_ORD>>, <<K_ORD, K_NL, K_ORD>>}
+InMenu == IF Rich THEN {<<K_ORD, K_NL, K_ORD>>, <<>>, <<K_LEAD, K_CONT>>} ELSE {<<K_ORD>>, <<K_ORD, K_NL, K_ORD>>}
 OutMenu ==
     CASE ty = "lines" ->
-            IF Rich THEN {<<K_ORD, K_NL>>, <<K_SP, K_ORD, K_SP, K_CR, K_NL>>, <<K_ORD, K_ORD>>, <<K_NL>>, <<K_ORD, K_NL, K_ORD, K_ORD, K_ORD, K_NL>>,
+            IF Rich THEN {<<K_SP, K_ORD, K_SP, K_CR, K_NL>>, <<K_ORD, K_ORD>>, <<K_NL>>, <<K_ORD, K_NL, K_ORD, K_ORD, K_ORD, K_NL>>,
                           <<K_ORD, K_ORD, K_ORD, K_ORD, K_NL>>, <<K_BAD, K_NL, K_ORD>>}
             ELSE {<<K_ORD, K_NL>>, <<K_SP, K_ORD, K_CR, K_NL, K_ORD>>, <<K_ORD, K_ORD, K_ORD>>}
       [] ty = "text" ->
-            IF Rich THEN {<<K_ORD>>, <<K_ORD, K_LEAD>>, <<K_CONT>>, <<K_CONT, K_ORD>>, <<K_LEAD, K_CONT, K_CONT, K_ORD, K_ORD, K_ORD>>, <<K_BAD, K_ORD>>,
+            IF Rich THEN {<<K_ORD, K_LEAD>>, <<K_CONT>>, <<K_CONT, K_ORD>>, <<K_LEAD, K_CONT, K_CONT, K_ORD, K_ORD, K_ORD>>, <<K_BAD, K_ORD>>,
                           <<K_ORD, K_ORD, K_ORD, K_LEAD, K_CONT>>}
             ELSE {<<K_ORD, K_LEAD>>, <<K_CONT, K_CONT, K_ORD, K_ORD, K_ORD>>, <<K_CONT>>}
       [] OTHER ->
@@ -580,11 +633,18 @@ ServerBut ==      \* everything but the start of the command
     \/ OutBegin \/ OutScan \/ OutEmitLine \/ OutRead \/ OutEmit \/ OutCloseFrame \/ OutConnClose \/ OutDone \/ PingExit
     \/ SrvCloseStdin \/ SrvSignal \/ SrvWaitDone \/ SrvReap \/ WaitDone \/ WaitReap \/ SrvWaited \/ SrvDefers
 Server == ServerBut \/ SrvStart
-React == ChildRead \/ ChildEof \/ ChildInt \/ ChildKilled \/ ClientRecv
-Fast  == (Server \/ React) /\ UNCHANGED hisv
+React == ChildRead \/ ChildEof \/ ChildInt \/ ChildKilled \/ ChildLeave \/ ClientRecv
+Fast  == Server \/ React
 \* real time: the second of grace passes only when nothing else is left to do
-Slow  == ~ENABLED Fast /\ SrvTimer /\ UNCHANGED hisv
+Slow  == ~ENABLED Fast /\ SrvTimer
 
+\* the command's last words: it writes and leaves - two steps of the command, between which it may
+\* still see what the server does about the write (a line too long: stdin closed, the interrupt)
+ChildWriteExit(piece) ==
+    /\ scope = "bridge" /\ ch = "run" /\ chOut /\ nw < MaxW /\ ~leaving
+    /\ LET toks == Mk(piece, Len(outHist)) IN outHist' = outHist \o toks /\ sout' = sout \o toks
+    /\ nw' = nw + 1 /\ leaving' = TRUE
+    /\ UNCHANGED <<cfgv, reqv, srvv, stopped, envv, ch, chenv, chGot, chEof, chSigs, chOut, pendInt, pendKill, spawns, sinW, sinHist, soutR, inv, outv, conv, cliv, synv, dirty>>
 Env ==
     \/ \E k \in AllReqKinds, p \in AllReqPaths, h \in HostForms, hs \in HdrSets : ClientRequest(k, p, h, hs)
     \/ \E m \in InMenu : ClientSend(m)
@@ -650,6 +710,10 @@ RECURSIVE UpToLong(_)
 UpToLong(ls) == IF ls = <<>> THEN <<>> ELSE IF Len(Head(ls)) >= Cap THEN <<>> ELSE <<Head(ls)>> \o UpToLong(Tail(ls))
 WantLines(s) == LET ls == UpToLong(LinesOf(s)) IN [i \in 1..Len(ls) |-> TrimWS(ls[i])]
 Payloads == [i \in 1..Len(cgot) |-> cgot[i].p]
+\* text: no frame ends inside a (well-formed) rune of the stream; q = position of the frame's last byte
+ValidRuneAt(i) == /\ i >= 1 /\ i + 2 <= Len(outHist)
+                  /\ Kind(outHist[i]) = K_LEAD /\ Kind(outHist[i + 1]) = K_CONT /\ Kind(outHist[i + 2]) = K_CONT
+NoSplit(q) == ~ValidRuneAt(q) /\ ~ValidRuneAt(q - 1)
 BytesExactOut ==
     /\ \A i \in 1..Len(cgot) : cgot[i].k = (IF ty = "binary" THEN "bin" ELSE "text")
     /\ ty = "lines" => /\ IsPrefixOf(Payloads, WantLines(outHist))
@@ -657,7 +721,7 @@ BytesExactOut ==
     /\ ty \in {"text", "binary"} =>
             /\ IsPrefixOf(Flat(Payloads), outHist)
             /\ \A i \in 1..Len(cgot) : Len(cgot[i].p) <= Cap
-    /\ ty = "text" => \A i \in 1..Len(cgot) : FindInc(cgot[i].p) = 0          \* no frame ends inside a rune
+    /\ ty = "text" => \A i \in 1..Len(cgot) : cgot[i].p # <<>> => NoSplit(cgot[i].p[Len(cgot[i].p)] % 100)
 
 \* a client that stays until the end gets everything the command wrote (text: except a trailing
 \* incomplete rune), unless a line was too long or a message of the client met a dead command
@@ -711,13 +775,6 @@ Seen == [head |-> chead, frames |-> cgot, cclose |-> cclose, ceof |-> ceof,
          ret |-> (pc = "returned"), rst |-> rst, passed |-> (fwd # NoFwd), spawns |-> spawns]
 Log(a, k, arg) == /\ hist' = Append(hist, [a |-> a, k |-> k, arg |-> arg, seen |-> Seen]) /\ nops' = nops + 1
 
-\* the command's last words: write and leave in one go
-ChildWriteExit(piece) ==
-    /\ scope = "bridge" /\ ch = "run" /\ chOut /\ nw < MaxW
-    /\ LET toks == Mk(piece, Len(outHist)) IN outHist' = outHist \o toks /\ sout' = sout \o toks
-    /\ nw' = nw + 1 /\ Die
-    /\ UNCHANGED <<cfgv, reqv, srvv, stopped, envv, chenv, chGot, chEof, chSigs, spawns, sinW, sinHist, soutR, inv, outv, conv, cliv, synv, dirty>>
-
 EnvSync ==
     \/ \E k \in AllReqKinds, p \in AllReqPaths, h \in HostForms, hs \in HdrSets :
             ClientRequest(k, p, h, hs) /\ Log("req", k, <<>>)
@@ -751,5 +808,5 @@ FlushedAtRest ==
 Emit == (Over /\ nops >= 1) =>
     PrintT(<<"CASE", ToJson([scope |-> scope, type |-> ty, buf |-> bs, mode |-> mode, cmdok |-> cmdok,
                              rk |-> rk, rpath |-> rpath, rhost |-> rhost, rhdrs |-> rhdrs, sel |-> sel,
-                             env |-> chenv, steps |-> hist, final |-> Seen, dirty |-> dirty])>>)
+                             env |-> (IF scope = "req" THEN chenv ELSE {}), steps |-> hist, final |-> Seen, dirty |-> dirty])>>)
 =============================================================================
